@@ -65,6 +65,8 @@ impl<T> ChannelSlots<T> {
             Entry::Vacant(entry) => {
                 let (t, u) = make_entry(channel_id)?;
                 entry.insert(t);
+                // the id may have been freed earlier; it is not free anymore
+                self.freed_channel_ids.shift_remove(&channel_id);
                 Ok(u)
             }
         }
@@ -91,6 +93,8 @@ impl<T> ChannelSlots<T> {
                 Entry::Vacant(entry) => {
                     let (t, u) = make_entry(channel_id)?;
                     entry.insert(t);
+                    // the id may have been opened explicitly and freed earlier
+                    self.freed_channel_ids.shift_remove(&channel_id);
                     return Ok(u);
                 }
             }
